@@ -5,7 +5,7 @@ from props import indexing
 
 MODULE = "Indexing"
 META = {
-    "spec": ["Indexing", "BarterSystem"],
+    "spec": ["Indexing", "BarterSystem", "AccountLink"],
     "level_note": "Trusted: TLC, the projection and concretisation in harness/src/idx_shared.rs, the recording stub "
                   "ExecutionClient behind the real ExecutionManager::run (tokio paused clock), the environment "
                   "assumptions in the evidence file. The global tables are taken from the implementation as given "
@@ -29,6 +29,12 @@ def composition(ctx):
     instrument of exchange X is answered in the name of X - commands spanning both exchanges included."""
     from props import composition as comp
     comp.run(ctx, comp.C04_TAGS, runs=3 if ctx.quick else 20)
+    # the account link of one exchange (real ExecutionManager::init around a scripted exchange; spec/AccountLink.tla,
+    # props/acctlink.py): snapshots, updates and responses carry the indices of THIS exchange's map (asset / instrument
+    # names shared with the other exchange included), updates bearing foreign names or another ExchangeId are dropped,
+    # a client whose constant ExchangeId belongs to another exchange is refused
+    from props import acctlink
+    acctlink.run(ctx, {"C04"})
 
 
 def check(ctx):
@@ -40,4 +46,7 @@ def replay(ctx, rp):
     if rp.get("kind") == "system":
         composition(ctx)          # re-runs the real system with the recorded seed family
         return ctx.finish(write_evidence=False)
+    if rp.get("kind") == "acctlink":
+        from props import acctlink
+        return acctlink.replay(ctx, rp, {"C04"})
     return indexing.replay(ctx, rp, "C04", "c04")
